@@ -11,6 +11,15 @@ pub fn dispatch(a: &[String]) -> String {
   match a[0].as_str() {
     "feel" => crate::feel_eval(None, &a[1]),
     "feelctx" => crate::feel_eval(Some(&a[1]), &a[2]),
+    "jsonify" => {
+      // jsonify <feel expression>: the JSON rendering of the value the expression evaluates to (what the server puts into "data")
+      use dmntk_common::Jsonify;
+      let scope = dmntk_feel::Scope::default();
+      let node = dmntk_feel_parser::parse_expression(&scope, &a[1], false).unwrap();
+      let v = dmntk_feel_evaluator::evaluate(&scope, &node).unwrap();
+      // hex of the UTF-8 bytes: the line-oriented transport of this tool must not touch the text
+      format!("JSON {}", v.jsonify().bytes().map(|b| format!("{:02x}", b)).collect::<String>())
+    }
     "numpred" => {
       // numpred <feel expression>: the predicates of the number the expression evaluates to (whatever its representation)
       let scope = dmntk_feel::Scope::default();
